@@ -134,10 +134,27 @@ Step(r) ==
 \* entity, a crate from elsewhere in the tree or an extreme argument.  Whatever it does to the
 \* library, it must complete or throw an exception derived from std::exception, and so must every
 \* observer applied afterwards (a crash, hang or sanitizer report ends the trace before this record).
+\* C07 on the observation alone.  After an unmodelled call the abstract state is unknown, but whatever was done - also through
+\* handles to removed crates, with crates of another library object or with ids of nothing as arguments - the structural queries
+\* still have to describe ONE well-formed forest: every crate listed once, parent() absent or a listed crate, children(c) exactly
+\* the crates whose parent is c, root_crates() exactly the parentless ones, no crate among its own ancestors, descendants = the
+\* transitive closure of children.
+SelfForestOK(o) ==
+    LET L == ToSet(o.all)
+        crs == ToSet(o.cr)
+        P == [c \in L |-> LET x == CHOOSE y \in crs : y.id = c IN IF x.par = <<>> THEN Root ELSE x.par[1]] IN
+    /\ Len(o.all) = Cardinality(L)
+    /\ {x.id : x \in crs} = L /\ Len(o.cr) = Cardinality(L)
+    /\ \A x \in crs : x.v = TRUE /\ (x.par # <<>> => x.par[1] \in L)
+    /\ \A x \in crs : ToSet(x.ch) = {d \in L : P[d] = x.id} /\ NoDup(x.ch)
+    /\ ToSet(o.roots) = {c \in L : P[c] = Root} /\ NoDup(o.roots)
+    /\ \A x \in crs : x.id \notin AncestorsIn(L, P, x.id) /\ ToSet(x.de) = DescIn(L, P, x.id) /\ NoDup(x.de)
+
 TProbe ==
     /\ l <= Len(Log)
     /\ LET r == Log[l] IN
        /\ r.e = "call" /\ Has(r, "probe")
+       /\ (Has(r, "obs") => SelfForestOK(r.obs))
        /\ r.out \in {"ok", "throw"} /\ (r.out = "throw" => r.std)
        /\ (Has(r, "obs_throw") => r.obs_throw.std)
        /\ (Has(r, "probes") => \A k \in DOMAIN r.probes : r.probes[k].std)
